@@ -2,6 +2,7 @@ import ScVerif.Base.Line
 import ScVerif.C16.Tolerance
 import ScVerif.C16.Pull
 import ScVerif.C16.Merge
+import ScVerif.C16.Free
 import ScVerif.C16.WireLemmas
 import ScVerif.C16.FloatIEEE
 /-!
@@ -250,6 +251,48 @@ def showPos : Option (Val × Nat) → String
 def showChg (c : Chg (Val × Nat)) : String :=
   c.id ++ ":" ++ showCT c.ct ++ ":" ++ showPos c.old ++ ":" ++ showPos c.new
 
+
+/-! Free-running schedules (`Free.lean`).
+`drop (t | r<nat>)*`: `minibus.DropExcess` on labelled messages: `o=<labels handed over> p=<label held|->`.
+`vfree <mspec> <filter> <cur> (t | <val>)*`: `Value.Pull` behind `DropExcess`: the writes are numbered 0..;
+`h=<numbers of the writes handed to the loop> d=<delivered bits, seed first> p=<number still held|->`.
+`cfree <mspec> <filter> <inc> (t | <id> <A|U|R> <old> <new>)*`: `Collection.Pull` behind
+`mergeCollectionExcess`: values tagged like `cmerge`; `m=<changes handed to the loop> q=<queue left>
+d=<changes the subscriber receives>`. -/
+def parseDropActs : List String → Option (List (Act Nat))
+  | [] => some []
+  | tok :: rest => do
+    let more ← parseDropActs rest
+    if tok = "t" then pure (.take :: more)
+    else if tok.front = 'r' then do
+      let n ← parseNat? (tok.drop 1).toString
+      pure (.recv n :: more)
+    else none
+
+def parseValActs (k : Nat) : List String → Option (List (Act (Val × Nat)))
+  | [] => some []
+  | tok :: rest =>
+    if tok = "t" then (parseValActs k rest).map (fun more => .take :: more)
+    else do
+      let v ← parseTree? tok
+      let more ← parseValActs (k + 1) rest
+      pure (.recv (v, k) :: more)
+
+def parseChgActs (k : Nat) : List String → Option (List (Act (Chg (Val × Nat))))
+  | [] => some []
+  | "t" :: rest => (parseChgActs k rest).map (fun more => .take :: more)
+  | id :: ct :: o :: n :: rest => do
+    let ct ← parseCT? ct
+    let o ← parseTop? o
+    let n ← parseTop? n
+    let more ← parseChgActs (k + 1) rest
+    pure (.recv ⟨id, ct, o.map (fun v => (v, 2 * k)), n.map (fun v => (v, 2 * k + 1))⟩ :: more)
+  | _ => none
+
+def showOptNat : Option Nat → String
+  | some n => toString n
+  | none => "-"
+
 def handle? (toks : List String) : Option String :=
   match toks with
   | ["cmp", m, x, y] => do
@@ -297,6 +340,30 @@ def handle? (toks : List String) : Option String :=
       e.map (fun e a b => e (a.map Prod.fst) (b.map Prod.fst))
     let inc' : Option (Val × Nat → Bool) := inc.map (fun f p => f p.1)
     pure ("q=" ++ ",".intercalate ((lossyWindow e' (fun p => (flt p.1, p.2)) inc' chgs).map showChg))
+  | "drop" :: acts => do
+    let acts ← parseDropActs acts
+    let r := dropRun none acts
+    pure ("o=" ++ ",".intercalate (r.1.map toString) ++ " p=" ++ showOptNat r.2)
+  | "vfree" :: m :: f :: cur :: acts => do
+    let e ← parseOptMSpec? m
+    let flt ← parseFilter? f
+    let cur ← parseTop? cur
+    let acts ← parseValActs 0 acts
+    let r := dropRun none acts
+    pure ("h=" ++ ",".intercalate (r.1.map (fun p => toString p.2)) ++
+      " d=" ++ showBits ((valuePull e flt cur (r.1.map Prod.fst)).map (·.delivered)) ++
+      " p=" ++ showOptNat (r.2.map Prod.snd))
+  | "cfree" :: m :: f :: i :: acts => do
+    let e ← parseOptMSpec? m
+    let flt ← parseFilter? f
+    let inc ← parseInc? i
+    let acts ← parseChgActs 0 acts
+    let e' : Option (Option (Val × Nat) → Option (Val × Nat) → Bool) :=
+      e.map (fun e a b => e (a.map Prod.fst) (b.map Prod.fst))
+    let inc' : Option (Val × Nat → Bool) := inc.map (fun f p => f p.1)
+    let r := mergerRun [] acts
+    pure ("m=" ++ ",".intercalate (r.1.map showChg) ++ " q=" ++ ",".intercalate (r.2.map showChg) ++
+      " d=" ++ ",".intercalate ((freeDeliveries e' (fun p => (flt p.1, p.2)) inc' acts).map showChg))
   | _ => none
 
 def handle (toks : List String) : String :=
